@@ -67,7 +67,8 @@ func (self *Node) UnmarshalJSON(data []byte) (err error) {
 	if len(data) == 0 {
 		return types.ERR_EOF
 	}
-	*self = newRawNode(rt.Mem2Str(data), switchRawType(data[0]), false)
+	/* json.Unmarshaler: "UnmarshalJSON must copy the JSON data if it wishes to retain the data after returning" */
+	*self = newRawNode(string(data), switchRawType(data[0]), false)
 	return nil
 }
 
